@@ -69,12 +69,10 @@ func reqLeaf() any {
 		return s
 	default:
 		if vTier() > 0 {
-			// depth 3: non-marker leaves are a fixed int or a fixed string
-			// (required() only asks whether a leaf is the marker string)
-			if ndChoice(2) == 0 {
-				return 7
-			}
-			return "s1"
+			// depth 3: the non-marker, non-string leaf is a fixed int
+			// (required() only asks whether a leaf is the marker string;
+			// plain strings come from the branch above)
+			return 7
 		}
 		return ndScalar()
 	}
